@@ -551,10 +551,15 @@ func (ch *channel) Accept() (Channel, <-chan *Request, error) {
 	if ch.decided {
 		return nil, nil, errDecidedAlready
 	}
+	// The mux loop adjusts myWindow under windowMu if the peer sends data
+	// before the channel is confirmed.
+	ch.windowMu.Lock()
+	myWindow := ch.myWindow
+	ch.windowMu.Unlock()
 	confirm := channelOpenConfirmMsg{
 		PeersID:       ch.remoteId,
 		MyID:          ch.localId,
-		MyWindow:      ch.myWindow,
+		MyWindow:      myWindow,
 		MaxPacketSize: ch.maxIncomingPayload,
 	}
 	ch.decided = true
